@@ -69,6 +69,13 @@ class Part(object):
     def dist(self, key):
         self.distinct.add(h64(key))
 
+    def remember(self, case, cap=40):
+        """An early case of the shard, judged AGAIN at the end of the shard (after everything else the shard
+        constructed in between): bounded caches, ring buffers and counters that wrap around need a long history."""
+        r = self.__dict__.setdefault("_remembered", [])
+        if len(r) < cap and not getattr(self, "_revisiting", False):
+            r.append(case)
+
     def violation(self, monitor, key, case, **info):
         """monitor: name of the monitor that fired; key: deterministic mechanism key
         (structure of the failure, never random values); case: the JSON-serialisable
@@ -78,6 +85,8 @@ class Part(object):
         if self.nviol[k] <= VIOL_CAP:
             w = {"monitor": monitor, "key": key, "case": case}
             w.update(info)
+            if getattr(self, "shard_id", None):
+                w["shard"] = self.shard_id
             self.viol.append(w)
 
     def setmin(self, name, value, witness=None):
@@ -118,13 +127,28 @@ class Part(object):
         self.notes.extend(o.notes)
 
 
+def _run_shard(mod, fname, shard, P):
+    getattr(mod, fname)(P, *shard)
+    P._revisiting = True
+    for case in list(getattr(P, "_remembered", [])):
+        P.stratum("early-case-judged-again-at-the-end-of-its-shard")
+        mod.check_case(P, case)
+
+
 def _shard_entry(args):
     modname, fname, shard, mutant = args
     mod = importlib.import_module(modname)
     # (an in-memory mutant applied in the parent is inherited through fork)
     P = Part()
+    # identity of the shard, kept in every witness: a violation that needs the shard's HISTORY (what was
+    # constructed before) is replayed by re-running the shard when its single case does not reproduce alone
     try:
-        getattr(mod, fname)(P, *shard)
+        sid = json.dumps({"fname": fname, "args": list(shard)})
+        P.shard_id = json.loads(sid) if len(sid) < 1500 else None
+    except Exception:
+        P.shard_id = None
+    try:
+        _run_shard(mod, fname, shard, P)
     except Inconclusive as e:
         P.notes.append("INCONCLUSIVE:" + str(e))
     except Exception:
@@ -367,6 +391,19 @@ def run_replay(pid, path):
         mod.replay(R, w)
     else:
         mod.check_case(R.P, w["case"])
+    if not R.P.viol and w.get("shard"):
+        # the case alone does not reproduce: the violation may need what the shard did before it
+        print("the case alone does not reproduce; re-running its shard %s%r" % (w["shard"]["fname"], tuple(w["shard"]["args"])[:4]))
+        P2 = Part()
+        try:
+            _run_shard(mod, w["shard"]["fname"], w["shard"]["args"], P2)
+        except Exception:
+            R.inconclusive.append("shard re-run failed: " + traceback.format_exc()[-400:])
+        P2.viol = [v for v in P2.viol if v.get("key") == w.get("key")]
+        for k in list(P2.nviol):
+            if k[1] != w.get("key"):
+                del P2.nviol[k]
+        R.P.merge(P2)
     return finish(R, write_evidence=False, replay_mode=True)
 
 
